@@ -67,10 +67,9 @@ impl EventGen for LoopElement {
         let event_element = &self.0;
         let mut gen_events = OutputList::new();
         let mut bbox = BoundingBoxBuilder::new();
-        if let (Ok(loop_def), Some(inner_events)) = (
-            LoopDef::try_from(event_element),
-            event_element.inner_events(context),
-        ) {
+        // (an empty element is a loop with an empty body)
+        let inner_events = event_element.inner_events(context).unwrap_or_default();
+        if let Ok(loop_def) = LoopDef::try_from(event_element) {
             let mut iteration = 0;
             let mut loop_var_name = String::new();
             let mut loop_count = 0;
@@ -174,10 +173,9 @@ impl EventGen for ForElement {
         let mut gen_events = OutputList::new();
         let mut bbox = BoundingBoxBuilder::new();
         let mut idx = 0;
-        if let (Ok(for_def), Some(inner_events)) = (
-            ForDef::try_from(event_element),
-            event_element.inner_events(context),
-        ) {
+        // (an empty element is a loop with an empty body)
+        let inner_events = event_element.inner_events(context).unwrap_or_default();
+        if let Ok(for_def) = ForDef::try_from(event_element) {
             let data_list: Vec<_> = eval_list(&for_def.data, context)?;
             let idx_name = for_def.idx_name.clone();
 
